@@ -6,7 +6,8 @@ the offsets of the text the error must name).  Generators, all from the same mod
  (b) section-wise exhaustive: measurement / tag key / tag value / field key (all raw strings up to SecLen) and field
      value (up to ValLen) in simple and escape-heavy contexts,
  (c) batches of <= 3 lines over 11 line classes (good, bad, comment, blank, CRLF-terminated, unterminated string...),
- (p) key-length boundary 65535 +- 2 and timestamp range boundaries at every precision (symbolic in the spec).
+ (p) key-length boundary 65535 +- 2, timestamp range boundaries at every precision (symbolic in the spec) and literal
+     timestamp tokens far outside int64 / with leading zeros (verdict by decimal-string arithmetic in the spec).
 Binding: every input is replayed on models.ParsePointsWithPrecision and http/points.Parser under recover + watchdog;
 point invariants are checked on every returned point without an oracle; acceptance, the returned structure and the
 lines named by the error are compared exactly with the spec's outcome."""
@@ -185,6 +186,9 @@ def convert_range(path, start, end, out_prefix, maps, batch):
                 if 'where' in inp:
                     meta['p'].append({'mode': 'pad', 'where': inp['where'], 'total': inp['total'], 'withTag': inp['withTag'],
                                       'accept': st['exp']['accept']})
+                elif 'digits' in inp:
+                    meta['p'].append({'mode': 'time', 'precision': inp['precision'], 'mult': inp['mult'], 'neg': inp['neg'],
+                                      'digits': inp['digits'], 'accept': st['exp']['accept']})
                 else:
                     meta['p'].append({'mode': 'time', 'precision': inp['precision'], 'mult': inp['mult'], 'base': inp['base'],
                                       'k': inp['k'], 'accept': st['exp']['accept']})
@@ -277,8 +281,10 @@ def run(ctx):
         pcases += meta['p']
     t2 = time.time()
     npad = sum(1 for c in pcases if c['mode'] == 'pad')
-    r.coverage = {'ExtendLine': n['A'], 'GenSection': n['B'], 'GenBatch': n['C'], 'GenPad': npad, 'GenTime': len(pcases) - npad}
-    ctx.check_coverage(r, ['ExtendLine', 'GenSection', 'GenBatch', 'GenPad', 'GenTime'])
+    nfar = sum(1 for c in pcases if 'digits' in c)
+    r.coverage = {'ExtendLine': n['A'], 'GenSection': n['B'], 'GenBatch': n['C'], 'GenPad': npad,
+                  'GenTime': len(pcases) - npad - nfar, 'GenFarTime': nfar}
+    ctx.check_coverage(r, ['ExtendLine', 'GenSection', 'GenBatch', 'GenPad', 'GenTime', 'GenFarTime'])
     for g in n:
         if acc[g] == 0:
             raise vlib.Inconclusive(f'vacuity guard: generator {g} has no accepted line')
@@ -297,7 +303,7 @@ def run(ctx):
             os.remove(path)
     res, lines = ctx.replay(binary, pcases, timeout=600, case_timeout='900s')
     ctx.absorb(res, lines, sample=1)
-    stats['P'] = {'pad_cases': npad, 'time_cases': len(pcases) - npad}
+    stats['P'] = {'pad_cases': npad, 'time_boundary_cases': len(pcases) - npad - nfar, 'time_far_token_cases': nfar}
     nontrivial = sum(acc.values()) + len(pcases)
     all_results = sum(n.values())
     vlib.log(f'replay done {time.time() - t2:.0f}s')
